@@ -38,7 +38,10 @@ sequences | `Option` | tuples / structs | enums.  Because types may be recursive
 
 Allocations are modelled by identities: the decoder-side interner is a list of slots, the slot index
 is the identity of the `Arc` allocation; a decoded value `DVal` carries the slot of every handle.
-Weak entries that die during one top-level decode are not modelled (see ASSUMPTIONS of c12.py).
+Handles produced by a running decode stay alive until the top-level call returns: since /repo commit F61COMMIT the decode
+session holds a clone of each (`keep = true`, the default everywhere); `keep = false` is the decoder before that
+commit, where the allocations made while reading a payload died when `intern` returned an equal live value and
+dropped the payload (finding F61).
 
 Imports nothing outside core (+ `Model/Codec`).
 -/
@@ -107,6 +110,19 @@ mutual
   def DVal.handlesL : List DVal → List (Nat × Nat × DVal)
     | [] => []
     | v :: vs => v.handles ++ DVal.handlesL vs
+end
+
+mutual
+  /-- the handles of a decoded value, not descending into allocations older than slot `n` (an allocation that existed
+      before the running decode is returned as it is; what is inside it was not produced by this decode) -/
+  def DVal.handlesAbove (n : Nat) : DVal → List (Nat × Nat × DVal)
+    | .plain _ => []
+    | .handle tid s p => (tid, s, p) :: (if s < n then [] else p.handlesAbove n)
+    | .list vs => DVal.handlesAboveL n vs
+    | .tagged _ p => p.handlesAbove n
+  def DVal.handlesAboveL (n : Nat) : List DVal → List (Nat × Nat × DVal)
+    | [] => []
+    | v :: vs => v.handlesAbove n ++ DVal.handlesAboveL n vs
 end
 
 mutual
@@ -216,8 +232,10 @@ def NErr.of : Err → NErr
 abbrev DR (α : Type) := Except NErr (α × Bytes × NInterner)
 
 mutual
-  /-- `Decode::decode(decoder, plugin, session)` -/
-  def dec (env : Nat → NTy) (hash : Nat → NVal → Nat) : Nat → NTy → Bytes → NInterner → DR DVal
+  /-- `Decode::decode(decoder, plugin, session)`.  `keep = true` is the code as it is since /repo commit F61COMMIT
+      (finding F61 repaired: `DecodedInterned` in the decode session keeps every produced handle alive until the
+      top-level call returns); `keep = false` is the decoder before it, kept as a historical witness. -/
+  def dec (keep : Bool) (env : Nat → NTy) (hash : Nat → NVal → Nat) : Nat → NTy → Bytes → NInterner → DR DVal
     | 0, _, _, _ => .error .outOfFuel
     | _ + 1, .plain t, bs, I =>
       match decode true t bs with
@@ -229,13 +247,17 @@ mutual
       | .ok (tag, bs) =>
         if tag = 0 then
           -- `WiredInterned::Source`: the payload first (its handles are interned on the way) …
-          match dec env hash fuel (env tid) bs I with
+          match dec keep env hash fuel (env tid) bs I with
           | .error e => .error e
           | .ok (p, bs, I1) =>
             -- … then `interner.intern(payload)`: the allocation alive under the key wins
             let k := (tid, hash tid p.erase)
             match I1.find k with
-            | some (slot, p') => .ok (.handle tid slot p', bs, I1)
+            | some (slot, p') =>
+              -- the decoded payload is dropped.  Repaired decoder (/repo F61COMMIT): the session holds a clone of every
+              -- handle produced so far, so what was allocated while the payload was read stays alive.  Historical
+              -- decoder: the payload was its only owner — those allocations die with it (their entries are dead).
+              .ok (.handle tid slot p', bs, if keep then I1 else I1.drop (I1.length - I.length))
             | none => .ok (.handle tid I1.length p, bs, (k, p) :: I1)
         else if tag = 1 then
           -- `WiredInterned::Reference`: `get_from_hash(..).expect(..)`
@@ -250,7 +272,7 @@ mutual
       match decVarint 64 bs with
       | .error e => .error (.of e)
       | .ok (n, bs) =>
-        match decSeq env hash fuel t n bs I with
+        match decSeq keep env hash fuel t n bs I with
         | .error e => .error e
         | .ok (vs, bs, I) => .ok (.list vs, bs, I)
     | fuel + 1, .opt t, bs, I =>
@@ -258,12 +280,12 @@ mutual
       | .error e => .error (.of e)
       | .ok (b, bs) =>
         if b != 0 then
-          match dec env hash fuel t bs I with
+          match dec keep env hash fuel t bs I with
           | .error e => .error e
           | .ok (p, bs, I) => .ok (.tagged 1 p, bs, I)
         else .ok (.tagged 0 (.list []), bs, I)
     | fuel + 1, .tuple ts, bs, I =>
-      match decTuple env hash fuel ts bs I with
+      match decTuple keep env hash fuel ts bs I with
       | .error e => .error e
       | .ok (vs, bs, I) => .ok (.list vs, bs, I)
     | fuel + 1, .enum vts, bs, I =>
@@ -273,28 +295,28 @@ mutual
         match vts[i]? with
         | none => .error .invalid
         | some vt =>
-          match dec env hash fuel vt bs I with
+          match dec keep env hash fuel vt bs I with
           | .error e => .error e
           | .ok (p, bs, I) => .ok (.tagged i p, bs, I)
   /-- `for _ in 0..len { vec.push(T::decode(..)?) }` -/
-  def decSeq (env : Nat → NTy) (hash : Nat → NVal → Nat) : Nat → NTy → Nat → Bytes → NInterner → DR (List DVal)
+  def decSeq (keep : Bool) (env : Nat → NTy) (hash : Nat → NVal → Nat) : Nat → NTy → Nat → Bytes → NInterner → DR (List DVal)
     | _, _, 0, bs, I => .ok ([], bs, I)
     | 0, _, _ + 1, _, _ => .error .outOfFuel
     | fuel + 1, t, n + 1, bs, I =>
-      match dec env hash fuel t bs I with
+      match dec keep env hash fuel t bs I with
       | .error e => .error e
       | .ok (v, bs, I) =>
-        match decSeq env hash fuel t n bs I with
+        match decSeq keep env hash fuel t n bs I with
         | .error e => .error e
         | .ok (vs, bs, I) => .ok (v :: vs, bs, I)
-  def decTuple (env : Nat → NTy) (hash : Nat → NVal → Nat) : Nat → List NTy → Bytes → NInterner → DR (List DVal)
+  def decTuple (keep : Bool) (env : Nat → NTy) (hash : Nat → NVal → Nat) : Nat → List NTy → Bytes → NInterner → DR (List DVal)
     | _, [], bs, I => .ok ([], bs, I)
     | 0, _ :: _, _, _ => .error .outOfFuel
     | fuel + 1, t :: ts, bs, I =>
-      match dec env hash fuel t bs I with
+      match dec keep env hash fuel t bs I with
       | .error e => .error e
       | .ok (v, bs, I) =>
-        match decTuple env hash fuel ts bs I with
+        match decTuple keep env hash fuel ts bs I with
         | .error e => .error e
         | .ok (vs, bs, I) => .ok (v :: vs, bs, I)
 end
@@ -312,7 +334,7 @@ values alive at that moment leaves behind: -/
 def aliveInterner (env : Nat → NTy) (hash : Nat → NVal → Nat) (fuel : Nat) : List (NTy × NVal) → NInterner → Option NInterner
   | [], I => some I
   | (t, v) :: rest, I =>
-    match dec env hash fuel t (encodeTop env hash t v) I with
+    match dec true env hash fuel t (encodeTop env hash t v) I with
     | .ok (_, _, I') => aliveInterner env hash fuel rest I'
     | .error _ => none
 
